@@ -73,7 +73,7 @@ def C05():
     from units import gen
     parts = [ProofPart(uf, 'UF(eqlog-runtime)', {'which': 0}, native=uf_native(0)),
              ProofPart(uf, 'UF(eqlog)', {'which': 1}, native=uf_native(1)),
-             ProofPart(gen, 'GEN', native=gn), UfDeep(0), UfDeep(1)]
+             ProofPart(gen, 'GEN', native=gn), UfDeep(0), UfDeep(1)] + repo_theory_parts(('main',))
     return {
         'level': 'proof', 'parts': parts,
         'samples': uf.SAMPLES, 'own_classes': C05_CLASSES,
@@ -167,11 +167,30 @@ def gen_native():
                        'that have no model declarations and no non-surjective rules (12 programs)')
 
 
+def repo_theory_parts(parts=('main', 'move')):
+    """thorough tier only: the same generated contracts on the modules the compiler emits for the repository's own test theories
+    (eqlog-test-eval/src/*.eql without model declarations), one Verus file per theory and part; a theory whose emitted module has a
+    shape the contract generator does not cover is skipped and named in the evidence (optional parts)"""
+    import glob
+    import re
+    from units import gen
+    if os.environ.get('VERIF_TIER_ACTIVE') != 'thorough':
+        return []
+    out = []
+    for f in sorted(glob.glob(os.path.join(driver.REPO, 'eqlog-test-eval', 'src', '*.eql'))):
+        if re.search(r'^\s*model\b', open(f).read(), re.M):
+            continue
+        n = os.path.basename(f)[:-4]
+        for part in parts:
+            out.append(ProofPart(gen, 'GEN%s(%s)' % ('' if part == 'main' else '-' + part, n), {'part': part, 'probes': [f]}, optional=True))
+    return out
+
+
 def C04():
     from units import gen
     gn = gen_native()
     return {
-        'level': 'proof', 'parts': [ProofPart(gen, 'GEN', native=gn), ProofPart(gen, 'GEN-move', {'part': 'move'}, native=gn)], 'samples': gen.SAMPLES, 'always_native': True,
+        'level': 'proof', 'parts': [ProofPart(gen, 'GEN', native=gn), ProofPart(gen, 'GEN-move', {'part': 'move'}, native=gn)] + repo_theory_parts(), 'samples': gen.SAMPLES, 'always_native': True,
         'own_classes': C04_CLASSES,
         'assumptions': gen.ASSUMPTIONS + ['the statements of C04 about the state AFTER close() (iterators, canonical elements, agreement of query paths) are covered by the bounded native sweep only'],
     }
